@@ -210,7 +210,7 @@ def post_contained(call):
     size = max(max(I.diag(s) for s in outer), max(I.diag(s) for s in inner), 1e-300)
     # crossing? (independent sweep over polylines); ambiguous when the paths come within 1e-6*size
     pi, po = path_samples(inner, 160), path_samples(outer, 160)
-    dmin = min(float(np.abs(po - z).min()) for z in pi[::4])
+    dmin = min(_pts_to_polyline(pi, po), _pts_to_polyline(po, pi))
     crosses = _polyline_paths_cross(pi, po)
     if not crosses and dmin < 1e-4 * size:
         ctx.skip('paths nearly touch')
@@ -245,6 +245,18 @@ def post_contained(call):
                       {'got': bool(call.ret), 'want': want, 'crosses': bool(crosses),
                        'inner': gen.path_spec(inner), 'outer': gen.path_spec(outer)})
     return True
+
+
+def _pts_to_polyline(pts, poly):
+    """smallest distance from the points to the segments of the polyline (true point-to-segment distances)"""
+    a, b = poly[:-1][None, :], poly[1:][None, :]
+    z = pts[:, None]
+    d = b - a
+    L2 = (d.real ** 2 + d.imag ** 2)
+    with np.errstate(divide='ignore', invalid='ignore'):
+        u = np.where(L2 > 0, ((z - a).real * d.real + (z - a).imag * d.imag) / np.where(L2 > 0, L2, 1), 0.0)
+    u = np.clip(u, 0, 1)
+    return float(np.abs(z - (a + u * d)).min())
 
 
 def _polyline_paths_cross(pa, pb):
